@@ -20,6 +20,8 @@ type J = map[string]any
 var capsules = map[string]cty.Type{
 	"c1": cty.Capsule("c1", reflect.TypeOf(0)),
 	"c2": cty.Capsule("c2", reflect.TypeOf("")),
+	// a second capsule type with the same name and the same native type as c1: a distinct type
+	"c1x": cty.Capsule("c1", reflect.TypeOf(0)),
 }
 
 func capsuleName(t cty.Type) string {
